@@ -10,8 +10,8 @@ TRAPS = {-1: "integer divide by zero", -2: "integer overflow", -3: "invalid conv
 
 # per-tier harness parameters: (classes, crossed-core budget, random tuples, constant-mode calls, exhaustive 8-bit lanes)
 TIERS = {
-    "quick": dict(classes="int,float", budget=140, rand=30, const=24, ex8=False),
-    "thorough": dict(classes="int,float", budget=1200, rand=1500, const=200, ex8=True),
+    "quick": dict(classes="int,float,simd,simdf", budget=140, rand=30, const=24, ex8=False),
+    "thorough": dict(classes="int,float,simd,simdf", budget=1200, rand=1500, const=200, ex8=True),
 }
 
 
@@ -35,9 +35,18 @@ def coq_case(op, imm, args, obs):
 
 def eval_shard(job):
     name, rows = job
+    # literal lists are cut into chunks: one huge list literal overflows coqc's stack
+    chunks, cur, n = [], [], 0
+    for r in rows:
+        cur.append(r)
+        n += r.count(";") + 1
+        if n > 6000:
+            chunks.append(cur); cur, n = [], 0
+    if cur:
+        chunks.append(cur)
     v = ("From Verif Require Import Wasm.NumericsOps.\nFrom Coq Require Import ZArith List Uint63.\nImport ListNotations.\nOpen Scope uint63_scope.\n"
-         "Definition cases : list int := [\n" + ";\n".join(rows) + "].\n"
-         "Definition M := Eval vm_compute in mismatches_enc cases.\nPrint M.\n")
+         + "".join("Definition c%d : list int := [\n%s].\n" % (i, ";\n".join(c)) for i, c in enumerate(chunks))
+         + "Definition M := Eval vm_compute in mismatches_chunks [%s].\nPrint M.\n" % "; ".join("c%d" % i for i in range(len(chunks))))
     rc, o = coq_eval(name, v, timeout=1500)
     return rc, o, parse_zlist(o, "M")
 
@@ -52,6 +61,8 @@ def run(tier, seed):
                        "vector memory instructions (load/store lane, load splat/extend) belong to C02/C14, not C05"]
     proofs_ok = ck.proofs()
     t = dict(TIERS.get(tier, TIERS["quick"]))
+    if os.environ.get("C05_CLASSES"):      # debugging aid: restrict the opcode classes
+        t["classes"] = os.environ["C05_CLASSES"]
     if not proofs_ok:
         t["rand"] *= 2
     binp, log = build_harness("c05")
@@ -103,10 +114,11 @@ def run(tier, seed):
                         "(bit-exact; NaN by class); distinct = distinct (op, imm, operands) tuples")
     # ---- evaluate the specification inside Coq, shards in parallel ----
     rows = [coq_case(k[0], k[1], k[2], ol) for k, ol in zip(keys, obs_lists)]
-    SH = 2500 if tier == "quick" else 6000
-    jobs = [("c05_%d" % s, rows[s:s + SH]) for s in range(0, len(rows), SH)]
+    # shards interleave the rows so that cheap (integer) and expensive (f64 div, vector) cases are spread evenly
+    nsh = 16 if tier == "quick" else max(16, len(rows) // 6000)
+    jobs = [("c05_%d" % s, rows[s::nsh]) for s in range(nsh)]
     t0 = time.time()
-    with ThreadPoolExecutor(max_workers=12) as ex:
+    with ThreadPoolExecutor(max_workers=16) as ex:
         results = list(ex.map(eval_shard, jobs))
     ck.note("coq evaluation of %d tuples in %d shards: %.1fs" % (len(rows), len(jobs), time.time() - t0))
     mism = []
@@ -116,7 +128,7 @@ def run(tier, seed):
             ck.violation("model-eval", {"kind": "model-eval"}, {"rc": rc, "out": o[-2000:]}, no_input=True)
             return ck.finish()
         for i in range(0, len(lst), 2):
-            mism.append((base + lst[i], lst[i + 1]))
+            mism.append((base + nsh * lst[i], lst[i + 1]))
     ck.extra["model_mismatches"] = len(mism)
     reported = {}
     for idx, j in mism:
